@@ -33,7 +33,7 @@ def build_cases(chk, *, n_synth, configs, real, which, budget_s, spec_fn=None, r
         if spec is None:
             continue
         meta = spec["meta"]
-        cases.append((f"synth:{meta['nfs']}:{spec['formalism']}:{meta['helset']}:{tries}", lambda s=spec: ampl.make_reaction(s), spec))
+        cases.append((f"synth:{meta['nfs']}:{spec['formalism']}:{meta['helset']}:ntop{meta.get('ntop', 1)}:{tries}", lambda s=spec: ampl.make_reaction(s), spec))
     for label, mk, spec in cases:
         if time.time() - t0 > budget_s:
             chk.note(f"time budget reached after {len(out)} models")
